@@ -1068,6 +1068,7 @@ func (g *gateClient) LTXFiles(ctx context.Context, level int, seek ltx.TXID, use
 	var listed, release chan struct{}
 	if hold {
 		g.armed = false // one shot
+		g.activity = 0  // count only what happens while the listing is held
 		listed, release = g.listed, g.release
 	} else if g.listed != nil {
 		g.activity++
@@ -1880,13 +1881,20 @@ func main() {
 			}
 		}
 	}
+	tPhase := time.Now()
+	phase := func(name string) {
+		res.Notes = append(res.Notes, fmt.Sprintf("phase %s: %.1fs", name, time.Since(tPhase).Seconds()))
+		tPhase = time.Now()
+	}
 	rnd := hx.NewRand(o.Seed)
 	for i := 0; i < nPure; i++ {
 		cc.evalCodec(genChain(rnd))
 	}
+	phase("codec-pure")
 	for i := 0; i < nLevels && res.Distribution["codec:failing-cases-not-shrunk"] < 50; i++ {
 		cc.evalCodec(genLevels(rnd))
 	}
+	phase("codec-levels")
 	// long backlogs before one compaction (level 1: many L0 files; level 2: many L1 files)
 	backlogA := []int{1, 2, 3, 63, 64, 65, 66, 100, 130, 300}
 	backlogB := []int{3, 63, 64, 65, 66, 100, 130}
@@ -1904,6 +1912,7 @@ func main() {
 			cc.evalCodec(genBacklog(rnd, n, true))
 		}
 	}
+	phase("codec-backlog")
 	histFail := 0
 	histBack := [][2]int{{[]int{65, 66, 100, 130}[o.Seed%4], 0}, {[]int{65, 66, 70}[o.Seed%3], 1}}
 	if o.Tier == "thorough" {
@@ -1914,6 +1923,7 @@ func main() {
 			histFail++
 		}
 	}
+	phase("hist-backlog")
 	nRace := 4
 	if o.Tier == "thorough" {
 		nRace = 40
@@ -1923,6 +1933,7 @@ func main() {
 			histFail++
 		}
 	}
+	phase("hist-race")
 	nRestart := 8
 	if o.Tier == "thorough" {
 		nRestart = 80
@@ -1932,11 +1943,13 @@ func main() {
 			histFail++
 		}
 	}
+	phase("hist-restart")
 	for i := 0; i < nHist && histFail < 2; i++ {
 		if !evalHist(genHist(rnd.Fork(), histOps/2+rnd.Intn(histOps)), i) {
 			histFail++
 		}
 	}
+	phase("hist-random")
 	if err := res.Write(o.Out); err != nil {
 		hx.Fatal(err)
 	}
